@@ -78,9 +78,10 @@ def boxCode (lo hi : Option K) (x : K) : K :=
   | some l, some u => minK (maxK x l) u
   | none, none => x
 
-/-- `ProximalHuber._call` at one point of a (non-product) tensor space. -/
+/-- `ProximalHuber._call` at one point of a (non-product) tensor space:
+`gamma/(gamma+sigma) * x` where `|x| <= gamma+sigma`, else `x - sigma * (x / |x|)`. -/
 def huberCode (gam sig x : K) : K :=
-  if absK x ≤ gam + sig then gam / (gam + sig) * x else x - sig * signK x
+  if absK x ≤ gam + sig then gam / (gam + sig) * x else x - sig * (x / absK x)
 
 /-- `ProximalConvexConjKL._call` at one point:
 `(x + lam - sqrt((x - lam)^2 + 4 lam sigma g)) / 2`. -/
@@ -204,6 +205,26 @@ def simplexTau (r : K) (x : List K) : Option K :=
 def projSimplex (r : K) (x : List K) : Option (List K) :=
   (simplexTau r x).map fun tau => x.map fun xi => maxK (xi - tau) 0
 
+/-- `ProximalSimplex._call` on a space with array weights `w`: sort `w*x` descending,
+`tau_j = (cumsum(x) - diameter) / cumsum(1/w)`, last `j` with `(w*x)_j - tau_j >= 0`,
+`out = max(x - tau/w, 0)`. -/
+def simplexTauW (r : K) (w x : List K) : Option K :=
+  let ps := (List.zip w x).mergeSort (fun a b => decide (b.1 * b.2 ≤ a.1 * a.2))
+  let rec go (rest : List (K × K)) (cx : K) (cw : K) (best : Option K) : Option K :=
+    match rest with
+    | [] => best
+    | (wi, xi) :: tl =>
+      let cx' := cx + xi
+      let cw' := cw + 1 / wi
+      let tau := (cx' - r) / cw'
+      let best' := if 0 ≤ wi * xi - tau then some tau else best
+      go tl cx' cw' best'
+  go ps 0 0 none
+
+def projSimplexW (r : K) (w x : List K) : Option (List K) :=
+  (simplexTauW r w x).map fun tau =>
+    List.zipWith (fun wi xi => maxK (xi - tau / wi) 0) w x
+
 /-- `proj_l1`. -/
 def projL1 (r : K) (x : List K) : Option (List K) :=
   let u := x.map absK
@@ -229,11 +250,12 @@ inductive Fn (K : Type) where
   | box (lo hi : Option (List K))                 -- proximal_box_constraint (bounds broadcast)
   | const                                         -- proximal_const_func
   | izero                                         -- IndicatorZero.proximal
-  | linf                                          -- proximal_linfty
-  | cclinf                                        -- proximal_convex_conj_linfty
-  | simplex (r : K)                               -- IndicatorSimplex.proximal
-  | sumc (s : K)                                  -- IndicatorSumConstraint.proximal
+  | linf (cw : K)              -- proximal_linfty; cw = _const_weight(space)
+  | cclinf (cw : K)            -- proximal_convex_conj_linfty
+  | simplex (arr : Bool) (r : K)  -- IndicatorSimplex.proximal; arr: space has array weights
+  | sumc (arr : Bool) (s : K)     -- IndicatorSumConstraint.proximal
   | huber (gam : K)                               -- proximal_huber (tensor space)
+  | huberG (d : Nat) (gam : K)                    -- proximal_huber on a power space X^d
   | klcc (lam : K) (g : Option (List K))          -- proximal_convex_conj_kl
   | trans (f : Fn K) (y : List K)                 -- FunctionalTranslation
   | argScale (f : Fn K) (s : K)                   -- FunctionalRightScalarMult
@@ -287,16 +309,28 @@ def Fn.prox (E : Env K) : Fn K → List K → Sig K → List K → List K
   | .klcc lam g, _, sig, x =>
       idxMap x fun i xi => klccCode E.sqrt lam sig.scalar xi
         (match g with | some _ => gAt g i | none => 1)
-  | .sumc s, _, _, x =>
+  | .sumc false s, _, _, x =>
       -- offset = 1 / x.size * (sum_value - x.ufuncs.sum())
       let n : K := x.foldl (fun acc _ => acc + 1) 0
       let off := 1 / n * (s - sumK x)
       x.map (· + off)
-  | .simplex r, _, _, x => (projSimplex r x).getD x
-  | .cclinf, _, _, x => (projL1 1 x).getD x
-  | .linf, _, sig, x =>
-      -- proj_l1(x, sigma, out); out.lincomb(-1, out, 1, x)
-      List.zipWith (fun pi xi => -pi + xi) ((projL1 sig.scalar x).getD x) x
+  | .sumc true s, w, _, x =>
+      -- tau = (sum_value - x.ufuncs.sum()) / np.sum(1 / weights); out = x + tau / weights
+      let tau := (s - sumK x) / sumK (w.map (1 / ·))
+      List.zipWith (fun wi xi => xi + tau / wi) w x
+  | .simplex false r, _, _, x => (projSimplex r x).getD x
+  | .simplex true r, w, _, x => (projSimplexW r w x).getD x
+  | .cclinf cw, _, _, x => (projL1 (1 / cw) x).getD x
+  | .linf cw, _, sig, x =>
+      -- radius = sigma / w; proj_l1(x, radius, out); out.lincomb(-1, out, 1, x)
+      List.zipWith (fun pi xi => -pi + xi) ((projL1 (sig.scalar / cw) x).getD x) x
+  | .huberG d gam, _, sig, x =>
+      let m := x.length / d
+      let nrm := pwNorm E.sqrt d m x
+      idxMap x fun i xi =>
+        let t := nrm.getD (i % m) 0
+        if t ≤ gam + sig.scalar then gam / (gam + sig.scalar) * xi
+        else xi - sig.scalar * (xi / t)
   | .l2 lam g, w, sig, x =>
       (proxL2 (wnorm E.sqrt w) E.eps lam (g.map Vec.mk) sig.scalar (Vec.mk x)).data
   | .l1l2 d lam g, _, sig, x =>
@@ -336,10 +370,11 @@ def Fn.ok : Fn K → Sig K → Nat → Bool
   | .l1 _ _, _, _ | .l2sq _ _, _, _ | .ccl2sq _ _, _, _ => true
   | .ccl1 _ g, sig, _ => sig.isScalar || g.isNone
   | .box _ _, _, _ | .const, _, _ | .izero, _, _ => true
-  | .sumc _, _, n => 0 < n
-  | .simplex r, _, n => 0 < n && decide (0 ≤ r)
-  | .cclinf, _, n => 0 < n
-  | .linf, sig, n => sig.isScalar && 0 < n && decide (0 ≤ sig.scalar)
+  | .sumc _ _, _, n => 0 < n
+  | .simplex _ r, _, n => 0 < n && decide (0 ≤ r)
+  | .cclinf cw, _, n => 0 < n && decide (0 < cw)
+  | .linf cw, sig, n => sig.isScalar && 0 < n && decide (0 ≤ sig.scalar) && decide (0 < cw)
+  | .huberG d _, sig, n => sig.isScalar && 0 < d && n % d == 0
   | .huber _, sig, _ | .klcc _ _, sig, _ | .l2 _ _, sig, _ => sig.isScalar
   | .l1l2 d _ _, sig, n | .ccl1l2 d _ _, sig, n => sig.isScalar && 0 < d && n % d == 0
   | .trans f y, sig, n => sig.isScalar && y.length == n && f.ok sig n
